@@ -133,7 +133,7 @@ Lemma sp_stream_S k ctx l : sp_stream (S k) ctx l =
                 | Some (None, r) => sp_stream k ctx r
                 | Some (Some v, r) =>
                   match is_lst v with
-                  | Some fs => sp_stream k (apply_lst ctx fs) r
+                  | Some fs => match apply_lst ctx fs with Some ctx' => sp_stream k ctx' r | None => None end
                   | None => option_map (cons v) (sp_stream k ctx r)
                   end
                 | None => None
@@ -155,13 +155,14 @@ Proof.
                 | None => None end = Some vs ->
               match sp_value (S k) ctx l with
                 | Some (None, r) => sp_stream k ctx r
-                | Some (Some v, r) => match is_lst v with Some fs => sp_stream k (apply_lst ctx fs) r
+                | Some (Some v, r) => match is_lst v with Some fs => match apply_lst ctx fs with Some ctx' => sp_stream k ctx' r | None => None end
                                                        | None => option_map (cons v) (sp_stream k ctx r) end
                 | None => None end = Some vs).
   { intros vs0. destruct (sl_value ts (S k) ctx l) as [[[v|] r]|] eqn:E; try discriminate;
       rewrite (sl_value_sp _ _ _ _ _ E).
     - unfold lst_gate. destruct (lst_like v) eqn:El.
-      + destruct (is_lst v) as [fs|]; [|discriminate]. destruct (lst_ok ctx fs); [|discriminate]. apply IH.
+      + destruct (is_lst v) as [fs|]; [|discriminate]. destruct (apply_lst ctx fs) as [ctx'|]; [|discriminate].
+        destruct (lst_ok fs ctx'); [|discriminate]. apply IH.
       + rewrite (lst_like_is_lst _ El).
         destruct (sl_stream ts k ctx r) eqn:E2; [|discriminate]. rewrite (IH _ _ _ E2). auto.
     - apply IH. }
